@@ -139,6 +139,10 @@ def run(prop):
         p = subprocess.run([os.path.join(core.VERIF, "bin", "rename-twin"), d, "_rn", "--params"], stdout=subprocess.PIPE, stderr=subprocess.STDOUT)
         if p.returncode != 0:
             raise variants.Skip("bin/rename-twin failed: %s" % p.stdout.decode("utf-8", "replace")[-200:])
+        # and every private Python function / method that can be renamed safely, with all its references (bin/rename-private-twin)
+        p = subprocess.run([os.path.join(core.VERIF, "bin", "rename-private-twin"), d], stdout=subprocess.PIPE, stderr=subprocess.STDOUT)
+        if p.returncode != 0:
+            raise variants.Skip("bin/rename-private-twin failed: %s" % p.stdout.decode("utf-8", "replace")[-200:])
     todo.append(("twin:RN", None, "silent", {"apply": _rn, "rules": []}))
 
     def _ifs(d):
